@@ -633,6 +633,9 @@ DOMNode* DOMElementImpl::rename(const XMLCh* namespaceURI, const XMLCh* name)
 {
     DOMDocumentImpl* doc = (DOMDocumentImpl*) fParent.fOwnerDocument;
 
+    if (!name || !doc->isXMLName(name))
+        throw DOMException(DOMException::INVALID_CHARACTER_ERR, 0, GetDOMNodeMemoryManager);
+
     if (!namespaceURI || !*namespaceURI) {
         fName = doc->getPooledString(name);
         fAttributes->reconcileDefaultAttributes(getDefaultAttributes());
